@@ -41,13 +41,13 @@ from rv.usb2host import UTMIHost, init_device_signals
 from rv.ref import usb2 as U
 
 PROPERTY = "C16"
-CASES = {"quick": 208, "thorough": 3200}
+CASES = {"quick": 288, "thorough": 4000}
 RULE = ("case = device with 1-2 iso OUT endpoints (mps 1..64, buffer mps..4*mps) and 25-60 host transactions in episodes "
         "(consumer stalled / ready / random / byte budget leaving a directed fill level), valid and damaged data packets, "
         "foreign endpoints/addresses; non-trivial = >=1 candidate dropped for lack of space, >=1 delivered into a partly full "
         "buffer and >=1 damaged packet; distinct = hash of configuration + wire packets + consumer schedule")
 REQUIRED_BINS = ["len_1", "len_mps", "len_mid", "zlp", "data_corrupt_crc", "data_truncated", "data_overlong_corrupt",
-                 "data_bad_pid", "foreign_address", "other_endpoint", "damaged_token", "corrupt_then_good",
+                 "data_bad_pid", "foreign_address", "other_endpoint", "other_endpoint_one_bit_away", "non_out_token_then_data", "damaged_token", "corrupt_then_good",
                  "free_exactly_mps", "free_in_cut_zone", "dropped_no_space", "delivered_into_partly_full",
                  "buffer_empty_at_token", "consumer_active_during_packet", "consumer_stalled_whole_packet",
                  "buffer_nondefault", "two_endpoints", "pid_data1", "pid_data2", "pid_mdata"]
@@ -511,8 +511,12 @@ def run_case(rng, tier, res):
             yield from send_data(t, "foreign_address", "foreign", good)
         elif kind == "other_ep":
             res.bin("other_endpoint")
-            others = [n for n in free_numbers if n != 0] or free_numbers
-            num = rng.choice(others + [e.number for e in eps if e is not ep and len(payload) <= e.mps])
+            near = [ep.number ^ m for m in (1, 2, 4, 8) if (ep.number ^ m) in free_numbers]      # numbers one bit away
+            if near and rng.random() < 0.5:
+                num = rng.choice(near)
+                res.bin("other_endpoint_one_bit_away")
+            else:
+                num = rng.choice(free_numbers + [e.number for e in eps if e is not ep and len(payload) <= e.mps])
             t = yield from send_token(U.OUT, 0, num)
             yield from host.idle(token_gap)
             yield from send_data(t, "other_endpoint_%d" % num, "foreign", good)
@@ -521,6 +525,12 @@ def run_case(rng, tier, res):
             t = yield from send_token(U.OUT, 0, ep.number, damage=rng.choice(["crc5", "crc5", "pid", "short"]))
             yield from host.idle(token_gap)
             yield from send_data(t, "after_damaged_token", "foreign", good)
+        elif kind == "non_out_token":
+            # SETUP / PING token carrying this endpoint's number, followed by a valid data packet: not an OUT transaction
+            res.bin("non_out_token_then_data")
+            t = yield from send_token(rng.choice([U.SETUP, U.SETUP, U.PING, U.IN]), 0, ep.number)
+            yield from host.idle(token_gap)
+            yield from send_data(t, "after_non_out_token", "foreign", good)
         elif kind == "token_only":
             yield from send_token(U.OUT, 0, ep.number)
         # an iso OUT endpoint never answers; leave a legal inter-packet gap
@@ -591,7 +601,7 @@ def run_case(rng, tier, res):
                     kind = "good" if r < 0.85 else rng.choice(["crc", "zlp", "other_ep"])
                 elif style == "mixed":
                     kind = ("good" if r < 0.5 else
-                            rng.choice(["crc", "crc", "trunc", "extend", "badpid", "foreign_addr", "other_ep", "bad_token", "zlp", "token_only"]))
+                            rng.choice(["crc", "crc", "trunc", "extend", "badpid", "foreign_addr", "other_ep", "other_ep", "bad_token", "zlp", "token_only", "non_out_token"]))
                 else:
                     kind = ("good" if r < 0.3 else rng.choice(["crc", "crc", "trunc", "trunc", "extend", "badpid", "bad_token", "foreign_addr"]))
                 yield from out_transaction(ep, kind)
